@@ -5,7 +5,8 @@ export GOFLAGS=-mod=mod GOPROXY=off GOSUMDB=off GOTOOLCHAIN=local
 MW=${MW:-/tmp/mw}; VSNAP=${VSNAP:-/tmp/vsnap}; MWORK=${MWORK:-/tmp/mwork}
 ds="$@"; [ -z "$ds" ] && ds=$(ls /verif/seeded)
 for d in $ds; do
-  prop=$(python3 -c "import json;print(json.load(open('/verif/seeded/$d/meta.json')).get('breaks','${d%%-*}')[:3])")
+  # the check recorded as detecting it (a change may be caught by the check of a neighbouring property)
+  prop=$(python3 -c "import json,re;m=json.load(open('/verif/seeded/$d/meta.json'));x=re.search(r'C\d\d',m.get('detected_by',''));print(x.group(0) if x else m.get('breaks','${d%%-*}')[:3])")
   cd $MW || exit 2
   git checkout -q -f --detach "$(git -C /repo rev-parse HEAD)"; git clean -fdq
   git apply /verif/seeded/$d/patch.diff || { echo "$d: patch does not apply"; continue; }
